@@ -173,6 +173,16 @@ var restoreCmd = &cobra.Command{
 				return fmt.Errorf("fail to get tree: %w", err)
 			}
 
+			// every path must be known to the index or to HEAD before anything is restored
+			for _, arg := range args {
+				cleanedArg := strings.ReplaceAll(filepath.Clean(arg), `\`, "/")
+				_, _, isRegistered := client.Idx.GetEntry([]byte(cleanedArg))
+				_, isNodeFound := object.GetNode(tree.Children, cleanedArg)
+				if !isRegistered && !isNodeFound && len(getPathsByDirectory(cleanedArg, client.Idx, tree)) == 0 {
+					return fmt.Errorf("error: pathspec '%s' did not match any file(s) known to goit", arg)
+				}
+			}
+
 			for _, arg := range args {
 				// a directory is restored path by path, taking the paths from the index and HEAD (not from the working tree)
 				if dirPaths := getPathsByDirectory(strings.ReplaceAll(filepath.Clean(arg), `\`, "/"), client.Idx, tree); len(dirPaths) > 0 {
@@ -248,6 +258,15 @@ var restoreCmd = &cobra.Command{
 				}
 			}
 		} else {
+			// every path must be registered in the index before anything is restored
+			for _, arg := range args {
+				cleanedArg := strings.ReplaceAll(filepath.Clean(arg), `\`, "/")
+				_, _, isRegistered := client.Idx.GetEntry([]byte(cleanedArg))
+				if !isRegistered && !client.Idx.IsRegisteredAsDirectory(cleanedArg) {
+					return fmt.Errorf("error: pathspec '%s' did not match any file(s) known to goit", arg)
+				}
+			}
+
 			// execute restore working directory
 			for _, arg := range args {
 				// a directory is restored entry by entry, taking the entries from the index (not from the working tree)
